@@ -135,12 +135,88 @@ func (fr *Frame) readVar(s *State, o *types.Var, pos token.Pos) *Val {
 	}
 	if o.Pkg() != nil && o.Parent() == o.Pkg().Scope() {
 		hn, hs := fr.eng.globalHeap(o)
+		fr.initConstGlobal(s, o, hn, hs)
 		return fr.readFact(s, &Val{T: o.Type(), S: s.heap(hn, hs)})
 	}
 	// variable not initialised on this path (e.g. declared in a branch that was merged away): havoc
 	v := fr.freshVal(s, o.Type(), o.Name())
 	s.vars[o] = v
 	return v
+}
+
+// initConstGlobal: a package-level variable that is never assigned (nor has its address taken) in the
+// loaded packages keeps the value of its initializer; for heap-free types the initializer is evaluated.
+func (fr *Frame) initConstGlobal(s *State, o *types.Var, hn, hs string) {
+	if !strings.HasPrefix(hn, "GC:") {
+		return
+	}
+	if fr.vc.globalsDone == nil {
+		fr.vc.globalsDone = map[types.Object]bool{}
+	}
+	if fr.vc.globalsDone[o] {
+		return
+	}
+	fr.vc.globalsDone[o] = true
+	gi, ok := fr.eng.globalInit[o]
+	if !ok || !heapFree(o.Type()) || gi.pkg.TypesInfo == nil {
+		return
+	}
+	if !pureInit(gi.expr, gi.pkg.TypesInfo) {
+		return
+	}
+	sub := &Frame{eng: fr.eng, vc: fr.vc, info: gi.pkg.TypesInfo, pkg: gi.pkg.Types, depth: maxInlineDepth, parent: nil}
+	tmp := s.clone()
+	tmp.g = "true"
+	nfacts := len(fr.vc.facts)
+	nobl := len(fr.vc.obls)
+	v := sub.eval(tmp, gi.expr)
+	// initializers are evaluated once at program start: no obligations, facts are unconditional
+	fr.vc.obls = fr.vc.obls[:nobl]
+	_ = nfacts
+	fr.vc.facts = append(fr.vc.facts, eq(s.heap(hn, hs), v.S))
+}
+
+func heapFree(t types.Type) bool {
+	switch u := t.Underlying().(type) {
+	case *types.Basic:
+		return true
+	case *types.Array:
+		return heapFree(u.Elem())
+	case *types.Struct:
+		for i := 0; i < u.NumFields(); i++ {
+			if !heapFree(u.Field(i).Type()) {
+				return false
+			}
+		}
+		return !isBigInt(t)
+	}
+	return false
+}
+
+// pureInit: literals, constants, composite literals and conversions only.
+func pureInit(e ast.Expr, info *types.Info) bool {
+	ok := true
+	ast.Inspect(e, func(n ast.Node) bool {
+		switch x := n.(type) {
+		case *ast.CallExpr:
+			if tv, found := info.Types[x.Fun]; !found || !tv.IsType() {
+				if tv2, f2 := info.Types[x]; !f2 || tv2.Value == nil {
+					ok = false
+				}
+			}
+		case *ast.Ident:
+			if o, isVar := info.Uses[x].(*types.Var); isVar && o != nil {
+				ok = false
+			}
+		case *ast.FuncLit, *ast.UnaryExpr:
+			if u, isU := x.(*ast.UnaryExpr); isU && u.Op != token.AND && u.Op != token.ARROW {
+				return true
+			}
+			ok = false
+		}
+		return ok
+	})
+	return ok
 }
 
 func (fr *Frame) writeVar(s *State, o *types.Var, v *Val) {
@@ -615,6 +691,7 @@ func (fr *Frame) evalIndex(s *State, x *ast.IndexExpr, commaOk bool) []*Val {
 	base := fr.eval(s, x.X)
 	if m, ok := bt.Underlying().(*types.Map); ok {
 		k := fr.convertTo(s, fr.eval(s, x.Index), m.Key())
+		fr.mapKeyCheck(s, m, k, x.Pos())
 		vn, vs, dn, ds := fr.eng.mapHeaps(m)
 		in := fr.vc.small("in", "Bool", fmt.Sprintf("(select (select %s %s) %s)", s.heap(dn, ds), base.S, k.S))
 		val := fmt.Sprintf("(select (select %s %s) %s)", s.heap(vn, vs), base.S, k.S)
@@ -786,6 +863,23 @@ func (fr *Frame) evalCompositeLit(s *State, x *ast.CompositeLit) *Val {
 		if isByte(u.Elem()) {
 			if len(x.Elts) == 0 {
 				return &Val{T: t, S: fr.eng.zeroOf(t)}
+			}
+			if int64(len(x.Elts)) == u.Len() {
+				var parts []string
+				keyed := false
+				for _, el := range x.Elts {
+					if _, ok := el.(*ast.KeyValueExpr); ok {
+						keyed = true
+						break
+					}
+					parts = append(parts, "(seq.unit "+fr.eval(s, el).S+")")
+				}
+				if !keyed {
+					if len(parts) == 1 {
+						return &Val{T: t, S: parts[0]}
+					}
+					return &Val{T: t, S: fr.vc.define("lit", "(Seq Int)", "(seq.++ "+strings.Join(parts, " ")+")")}
+				}
 			}
 			fr.imprecise(x.Pos(), "byte array literal")
 			return fr.freshVal(s, t, "lit")
